@@ -97,6 +97,7 @@ macro_rules! impl_current_for {
 
         impl$(<$($generic $( : $trait_tt1 $( + $trait_tt2)*)?),+>)? $struct_name$(<$($generic),+>)? {
             /// Init the current.
+            #[inline(never)]
             pub(crate) fn init_current(current: &Self) {
                 $name.with(|s| unsafe {
                     s.as_ptr()
@@ -115,6 +116,7 @@ macro_rules! impl_current_for {
             /// Get the current if has.
             #[must_use]
             #[allow(unreachable_pub)]
+            #[inline(never)]
             pub fn current<'current>() -> Option<&'current Self> {
                 $name.try_with(|s| unsafe {
                     s.as_ptr()
@@ -134,6 +136,7 @@ macro_rules! impl_current_for {
             }
 
             /// Clean the current.
+            #[inline(never)]
             pub(crate) fn clean_current() {
                 _ = $name.try_with(|s| unsafe {
                     _ = s.as_ptr()
